@@ -26,6 +26,14 @@ def units(rng, tier):
             a = rng.choice(["ff", "ffd", "bf", "bfd", "bc"])
             u = pack_unit(a, C, v, rng, fmt=rng.choice(gen.FORMATS), out=rng.choice(OUTS), cmp="eq", family="oversize")
             us.append(u)
+    # several oversize items whose NAMES are of different, mutually incomparable types (str, int, tuple, float keys in one dict)
+    for _ in range(40 if tier == "quick" else 400):
+        C, vals, fam = gen.packing_instance(rng, nmax=6)
+        v = list(vals)
+        for _j in range(rng.randint(2, 3)):
+            v.insert(rng.randrange(len(v) + 1), C + rng.choice([1, 2, C]))
+        a = rng.choice(["ff", "ffd", "bf", "bfd", "bc", "bc"])
+        us.append(pack_unit(a, C, v, rng, fmt="dict_mixed", out=rng.choice(OUTS), cmp="eq", family="oversize/mixed-type-names"))
     # degenerate bin sizes: binsize 0 (only zero-valued items fit) or negative, with at least one item above it
     for _ in range(40 if tier == "quick" else 400):
         C = rng.choice([0, 0, 0, -1, -5])
